@@ -7,8 +7,22 @@ EXTENDS Limits, LimitsUnit, TraceIO
 VARIABLE l
 EnvAll == JsonDeserialize(IOEnv.LIMENV)
 EnvOf(m) == IF m = "fee" THEN EnvAll.fee ELSE EnvAll.nofee
+Count(prog, kind) == Cardinality({i \in DOMAIN prog : prog[i].op = kind})
+(* a committed (successful) transaction shows exactly the program's events and logs, and they are within the limits *)
+CommittedWithin(ev) ==
+  ev.obs.status = "success" =>
+    /\ ev.seen.events = Count(ev.prog, "emit") /\ ev.seen.logs = Count(ev.prog, "log")
+    /\ ev.seen.events + EnvOf(ev.mode).events <= ev.cfg.events /\ ev.seen.logs <= ev.cfg.logs
+    /\ \A i \in DOMAIN ev.prog :
+         LET o == ev.prog[i] IN
+         /\ o.op = "write" => o.k <= ev.cfg.key /\ o.n <= ev.cfg.value
+         /\ o.op = "alloc" => o.n <= ev.cfg.value
+         /\ o.op = "call" => o.n <= ev.cfg.payload
+         /\ o.op = "emit" => o.n <= ev.cfg.event
+         /\ o.op = "log" => o.n <= ev.cfg.log
 Ok(ev) == CASE ev.a = "run" -> /\ Admits(ev.cfg, EnvOf(ev.mode))
                                /\ Outcome(ev.prog, ev.cfg, EnvOf(ev.mode)) = ev.obs
+                               /\ CommittedWithin(ev)
             [] ev.a = "unit" -> UnitRun(ev.cfg, ev.calls) = ev.obs
             [] OTHER -> FALSE
 TInit == l = 1
